@@ -168,15 +168,15 @@ theorem host_fixpoint (w : Json) (x : HostV) (hU : hostU w = some x) :
       · simp
     have hcfg : x.cfg = .struct [a, h, wgt, .ptr md, t] := by rw [hx]
     have hM : hostM x = encode hostShape (.struct [a, h, wgt, fromMeta x.md, t]) := by simp [hostM, hcfg]
-    have hwm : wt (.ptr (.struct (.cons "filter_metadata" false (.struct (.cons "mosn.lb" false .hole .nil)) .nil))) (fromMeta x.md) = true := by
-      unfold fromMeta; split <;> simp [wt, wtF, wtL, ptrElemOK]
+    have hwm : wt (.ptr (.struct (.cons "filter_metadata" false (.struct (.cons "mosn.lb" false .hmap .nil)) .nil))) (fromMeta x.md) = true := by
+      unfold fromMeta; split <;> simp [wt, wtF, wtL, ptrElemOK, isObjOrNull]
     have hwc1 : wt hostShape (.struct [a, h, wgt, fromMeta x.md, t]) = true := by
       simp only [hostShape, wt, wtF, Bool.and_eq_true, Bool.and_true]
       exact ⟨hwa, hwh, hww, by simpa [wt] using hwm, hwt⟩
     have hrt := rt _ hk _ hwc1
     have hen := en _ _ hwc1
-    have hnm : (if isEmpty (fromMeta x.md) then zero (.ptr (.struct (.cons "filter_metadata" false (.struct (.cons "mosn.lb" false .hole .nil)) .nil)))
-        else norm (.ptr (.struct (.cons "filter_metadata" false (.struct (.cons "mosn.lb" false .hole .nil)) .nil))) (fromMeta x.md)) = fromMeta x.md := by
+    have hnm : (if isEmpty (fromMeta x.md) then zero (.ptr (.struct (.cons "filter_metadata" false (.struct (.cons "mosn.lb" false .hmap .nil)) .nil)))
+        else norm (.ptr (.struct (.cons "filter_metadata" false (.struct (.cons "mosn.lb" false .hmap .nil)) .nil))) (fromMeta x.md)) = fromMeta x.md := by
       unfold fromMeta
       split
       · simp [isEmpty, zero]
